@@ -76,8 +76,7 @@ def run(ck, tier, seed, scale, t0):
         code, out = ck.run_vh(binp, ["C17", tier, "--seed", str(seed), "--out", part_out, "--build", "guard", "--known", ck.KNOWN, "--replay-dir", ck.REPLAYS, "--scale", scale], ck.WATCHDOG[tier])
         print(out, end="", flush=True)
         if code not in (0, 1, 2):
-            ck.log("INCONCLUSIVE guard-allocator run ended with status %d (a crash inside the allocator monitor or the library)" % code)
-            code = 2
+            code = ck.classify_crash("C17", "guard", seed, code, out)
         parts.append(("guard", code, ck.load(part_out)))
     codes.append(parts[-1][1])
 
